@@ -652,3 +652,39 @@ def pairs(tier):
                                                           "A": a["schema"], "B": b["schema"]}),
                         "target": "T", "ff": ff, "enf": enf, "strish": False, "shape": pid, "ctx": "pair_defs"})
     return out
+
+
+def twins(tier):
+    """near-twin unnamed types side by side in one struct (typify shares unnamed types through a map keyed by their details: two
+    different instantiations of one constructor must stay different): K(A) next to K(B) for every constructor K and leaf pairs (A, B)"""
+    out = []
+    leafpairs = [("integer", "string"), ("u8", "u16"), ("string", "str_max2"), ("i64", "u64")] if tier != "quick" else [("integer", "string"), ("u8", "u16")]
+    K = {
+        "vec": lambda s: {"type": "array", "items": s},
+        "set": lambda s: {"type": "array", "items": s, "uniqueItems": True},
+        "map": lambda s: {"type": "object", "additionalProperties": s},
+        "nullable": lambda s: {"oneOf": [s, {"type": "null"}]},
+        "array2": lambda s: {"type": "array", "items": s, "minItems": 2, "maxItems": 2},
+        "tuple_bool": lambda s: {"type": "array", "items": [s, BOOL], "minItems": 2, "maxItems": 2},
+        "vec_vec": lambda s: {"type": "array", "items": {"type": "array", "items": s}},
+    }
+    for kn, k in K.items():
+        for a, b in leafpairs:
+            for x, y in ((a, b), (b, a)):
+                sa, sb = LEAF[x]["schema"], LEAF[y]["schema"]
+                doc = _doc({"T": obj({"p": k(copy.deepcopy(sa)), "q": k(copy.deepcopy(sb)), "r": k(copy.deepcopy(sa))}, ["p", "q"])})
+                out.append({"id": "twins[%s:%s,%s]@struct" % (kn, x, y), "doc": doc, "target": "T", "ff": kn != "set", "enf": kn not in ("set", "map"),
+                            "strish": False, "shape": "twins:" + kn, "ctx": "twins"})
+    # same members, other arrangement: tuple order, array length
+    extra = {
+        "tuple_swap": obj({"p": {"type": "array", "items": [INT, STR], "minItems": 2, "maxItems": 2}, "q": {"type": "array", "items": [STR, INT], "minItems": 2, "maxItems": 2}}, ["p", "q"]),
+        "array_len": obj({"p": {"type": "array", "items": INT, "minItems": 2, "maxItems": 2}, "q": {"type": "array", "items": INT, "minItems": 3, "maxItems": 3}}, ["p", "q"]),
+        "tuple_len": obj({"p": {"type": "array", "items": [INT, INT], "minItems": 2, "maxItems": 2}, "q": {"type": "array", "items": [INT, INT, INT], "minItems": 3, "maxItems": 3}}, ["p", "q"]),
+        "vec_vs_set": obj({"p": {"type": "array", "items": INT}, "q": {"type": "array", "items": INT, "uniqueItems": True}}, ["p", "q"]),
+        "map_vs_mapany": obj({"p": {"type": "object", "additionalProperties": INT}, "q": {"type": "object"}}, ["p", "q"]),
+        "opt_vs_optopt": obj({"p": {"type": ["integer", "null"]}, "q": {"oneOf": [{"type": ["integer", "null"]}, {"type": "string"}]}}),
+    }
+    for en, sch in extra.items():
+        out.append({"id": "twins[%s]@struct" % en, "doc": _doc({"T": sch}), "target": "T", "ff": en != "vec_vs_set", "enf": en not in ("vec_vs_set", "map_vs_mapany"),
+                    "strish": False, "shape": "twins:" + en, "ctx": "twins"})
+    return out
